@@ -170,10 +170,10 @@ CHECKS = {
     "C11": {"engines": ["E3", "E1"]},
     "C12": {"engines": ["E1", "E3"]},
     "C13": {"engines": ["E3", "E1"]},
-    "C14": {"engines": ["E4", "E3"]},
+    "C14": {"engines": ["E4", "E3"], "level": "exploration"},
     "C15": {"engines": ["E3"]},
     "C16": {"engines": [("E3", {"suite": "C16", "profiles": ("pdbg", "prel"), "all_tags": True}), ("E3", {"suite": "C16R", "profiles": ("pdbg", "prel"), "all_tags": True})], "level": "exploration"},
     "C17": {"engines": [("E3", {"profiles": ("pdbg", "prel"), "diff": True})], "level": "exploration"},
-    "C18": {"engines": ["E1"]},
+    "C18": {"engines": ["E1"], "level": "fault_enumeration"},
     "C19": {"engines": ["E3"]},
 }
